@@ -86,8 +86,10 @@ def agg_difference(gvals, overall, method):
     if not vals:
         return math.nan
     if method == "between_groups":
-        return max(vals) - min(vals)
-    return max(abs(v - overall) for v in vals)
+        return _fsub(max(vals), min(vals))
+    ds = [abs(_fsub(v, overall)) for v in vals]
+    ds = [d for d in ds if not _isnan(d)]  # inf - inf is undefined: skipped like an empty cell
+    return max(ds) if ds else math.nan
 
 
 def agg_ratio(gvals, overall, method):
@@ -105,6 +107,11 @@ def agg_ratio(gvals, overall, method):
             continue
         rs.append(_fdiv(1.0, r) if r > 1 else r)
     return min(rs) if rs else math.nan
+
+
+def _fsub(a, b):
+    with np.errstate(all="ignore"):
+        return float(np.float64(a) - np.float64(b))
 
 
 def _fdiv(a, b):
